@@ -273,6 +273,42 @@ def record_synthesis(ctx):
                         f'to no statement)', f.file, f.line)
 
 
+def replacement_keeps_location(ctx):
+    """The passes rewrite nodes (folded constants, `f = expr` inside a
+    FUNCTION -> ReturnValueSetStmt) through Node.replace_child; the
+    replacement gets its debug record and diagnostics position from the
+    node it replaces."""
+    from ..cfg import build_cfg, repo_noreturn
+    repo = ctx.repo
+    rule = 'C11.replacement-node-inherits-the-location'
+    ctx.rule(rule, 'Node.replace_child copies loc_start and loc_end from '
+             'the replaced child to the new one on every normal path '
+             '(unconditionally): statements created by the passes otherwise '
+             'have no position, hence no debug record')
+    f = repo.func('qbee.node', 'Node.replace_child')
+    params = [a.arg for a in f.node.args.args]
+    if len(params) < 3:
+        raise AnalysisError('anchor vanished: replace_child(self, old, new)')
+    old, new = params[1], params[2]
+    cfg = build_cfg(f.node, repo_noreturn)
+    for attr in ('loc_start', 'loc_end'):
+        want = f'{new}.{attr} = {old}.{attr}'
+        construct = f'{f.file}:Node.replace_child:{attr}'
+        nodes = [n for n in cfg.nodes if n.kind == 'stmt' and
+                 isinstance(n.ast, ast.Assign) and
+                 unparse(n.ast) == want]
+        ok = bool(nodes) and cfg.must_pass(
+            cfg.exit, lambda x: x in nodes)
+        ctx.instance(rule, construct, sample={'copied_on_all_paths': ok})
+        if not ok:
+            ctx.finding(rule, construct,
+                        f'replace_child does not execute `{want}` on every '
+                        f'path to its normal exit: a node inserted by a '
+                        f'pass (e.g. ReturnValueSetStmt) keeps no source '
+                        f'position and gets no debug record', f.file,
+                        f.line)
+
+
 def run(ctx):
     ctx.clauses = [
         'markers bracket every generator call with matching guards',
@@ -299,6 +335,7 @@ def run(ctx):
     grammar_shapes.check_child_fields(ctx, 'C11')
     from .. import dbgrecords
     dbgrecords.check(ctx, 'C11')
+    replacement_keeps_location(ctx)
     if ctx.tier == 'thorough' or True:
         try:
             from .. import gensim
